@@ -288,7 +288,7 @@ func designModels(ctx *core.Ctx) error {
 			mc{"MC_KeyTree", "MC_KeyTree_F5.cfg", "F=5 N<=157"},
 			mc{"MC_KeyTree", "MC_KeyTree_F6.cfg", "F=6 N<=260"},
 			mc{"MC_KeyTree", "MC_KeyTree_F8.cfg", "F=8 N<=586"},
-			mc{"MC_KeyTree", "MC_KeyTree_gaps2.cfg", "F=2 N<=16, gaps"},
+			mc{"MC_KeyTree", "MC_KeyTree_gaps2.cfg", "F=2 N<=14, gaps"},
 			mc{"MC_KeyTree", "MC_KeyTree_gaps3.cfg", "F=3 N<=14, gaps"},
 			mc{"KeyTreeMem", "MC_KeyTreeMem_t.cfg", "in-memory value: F=3, up to 12 keys, <=3 edits"},
 		)
